@@ -151,7 +151,40 @@ class MarkovChainMonteCarloRewiring(MarkovChainMonteCarlo):
                         "MarkovChainMonteCarlo - target edges already in network"
                     )
                     return False
+
+        # a focal vertex that is already a vertex of the other motif (without being
+        # a neighbour of its focal vertex) would appear in that motif twice
+        if e0s and (
+            v0 in self.get_motif_vertices(G, u0, e0s[0])
+            or u0 in self.get_motif_vertices(G, v0, e1s[0])
+        ):
+            self._logger.debug(
+                "MarkovChainMonteCarlo - focal vertex already in the other motif"
+            )
+            return False
         return True
+
+    def get_motif_vertices(self, G: nx.Graph, u0: int, edge: tuple) -> set:
+        """
+        Returns the vertices of the motif that `edge' belongs to, found by following
+        the edges that carry its motif id outwards from u0.
+        :param G: nx.Graph
+        :param u0: vertex of the motif
+        :param edge: edge in motif
+        :returns set: vertices of the motif
+        """
+        motif_id = G.edges[edge][NetworkNames.MOTIF_IDS]
+        vertices: set = {u0}
+        stack: list = [u0]
+        while stack:
+            w = stack.pop()
+            for e in G.edges(w):
+                if G.edges[e][NetworkNames.MOTIF_IDS] == motif_id:
+                    x = self.get_other_vertex(w, e)
+                    if x not in vertices:
+                        vertices.add(x)
+                        stack.append(x)
+        return vertices
 
     def get_other_vertex(self, u: int, e: tuple) -> int:
         if e[0] == u:
